@@ -48,7 +48,7 @@ class Exec:
         s.called = set(); s.path_samples = []; s.completed_models = []; s.keep_models = 0
         s.domain_checks = False; s.domain_issues = []; s.record_reads = False
         s.srt = z3.RealSort() if mode == 'real' else F64
-        s.deadline = None; s.vcache = {}; s.slicing = (mode == 'real')
+        s.deadline = None; s.fork_select = True; s.vcache = {}; s.slicing = (mode == 'real')
     # ------------------------------------------------------------ solver
     def vars_of(s, e):
         """uninterpreted constants and function symbols occurring in e (cached per AST id)"""
@@ -325,7 +325,9 @@ class Exec:
             if op == 'fadd': return ('f', X + Y)
             if op == 'fsub': return ('f', X - Y)
             if op == 'fmul': return ('f', X * Y)
-            if op == 'fdiv': return ('f', X / Y)
+            if op == 'fdiv':
+                if isinstance(y, float): return ('f', X / Y)          # division by a constant stays linear
+                return ('f', X * (1 / Y))                             # x/y as x*(1/y): lets simplify() bring rational terms to one normal form
             raise Unsupported('frem in real mode')
         X, Y = s.fz(a), s.fz(b)
         if s.mode == 'fpa':          # every arithmetic result is arbitrary (sound over-approximation for safety/termination claims)
@@ -557,7 +559,7 @@ class Exec:
             d_ = st.subst.get(cb.get_id())
             if d_ is not None: regs[dest] = a if d_ else b; fr.ip += 1; return
             if a[0] == 'i' and b[0] == 'i': regs[dest] = iv(a[1], z3.If(cb, bvz(a), bvz(b))); fr.ip += 1; return
-            if a[0] == 'f' and b[0] == 'f': regs[dest] = ('f', z3.If(cb, s.fz(a), s.fz(b))); fr.ip += 1; return
+            if a[0] == 'f' and b[0] == 'f' and not (s.mode == 'real' and s.fork_select): regs[dest] = ('f', z3.If(cb, s.fz(a), s.fz(b))); fr.ip += 1; return
             if a == b: regs[dest] = a; fr.ip += 1; return
             alts = []
             for c_, v_ in ((cb, True), (z3.Not(cb), False)):
